@@ -872,7 +872,7 @@ def _fork_isolation(ctx, hdr, res, chains):
 def correspondence(ctx):
     rng = random.Random(ctx.seed)
     quick = ctx.tier == 'quick'
-    n_low, n_build, n_fork = (380, 170, 55) if quick else (7000, 2500, 1200)
+    n_low, n_build, n_fork = (380, 170, 55) if quick else (7000, 2500, 400)
     sysd = systematic()
     low = [gen_low(rng, 50 if i % 10 == 0 else 8) for i in range(n_low)]
     bld = [gen_builder(rng) for _ in range(n_build)]
